@@ -45,6 +45,37 @@ def _get(d, path):
     return d
 
 
+def _connector_isolated_head(e):
+    """K18c/K18d: in the generator's own solved board some agent's start cell has no 4-neighbour carrying that agent's
+    wire or target (the 'phantom first move' of RandomWalkGenerator when a sampled start has no free neighbour)."""
+    s = e["s"]
+    sg = s["solved_grid"]
+    n = len(sg)
+    for k, (r, c) in enumerate(s["agents"]["start"]):
+        own = {3 * k + 1, 3 * k + 3}
+        nb = [sg[r + dr][c + dc] for dr, dc in ((-1, 0), (1, 0), (0, -1), (0, 1)) if 0 <= r + dr < n and 0 <= c + dc < n]
+        if not any(x in own for x in nb):
+            return True
+    return False
+
+
+def _flatpack_short_piece(e):
+    """K17: the block set tiles the grid geometrically, and some block is only two rows tall or two columns wide inside its
+    3x3 box (the pieces _crop_nonzero pushes to the top-left, which the action space cannot put back at the far edge)."""
+    s = e["s"]
+    if s.get("sol_free_st") != 1:
+        return False
+    for b in s["blocks"]:
+        rows = [any(v != 0 for v in row) for row in b]
+        cols = [any(b[r][c] != 0 for r in range(len(b))) for c in range(len(b[0]))]
+        if any(rows) and not (rows[0] and rows[-1] and cols[0] and cols[-1]):     # (blocks are stored randomly rotated)
+            return True
+    return False
+
+
+PREDICATES = {"connector_isolated_head": _connector_isolated_head, "flatpack_short_piece": _flatpack_short_piece}
+
+
 def match_finding(findings, v):
     """v: dict(property, env, cfgid, clause, event...). Only status == 'known' entries suppress."""
     for f in findings:
@@ -69,6 +100,14 @@ def match_finding(findings, v):
                     return any(neg(y) for y in x)
                 return isinstance(x, (int, float)) and not isinstance(x, bool) and x < 0
             if not neg(_get(v.get("event") or {}, path)):
+                ok = False
+                break
+        for name in (f.get("event_predicates") or []):          # named predicates pinning the SPECIFIC failure (see below)
+            try:
+                if not PREDICATES[name](v.get("event") or {}):
+                    ok = False
+                    break
+            except Exception:  # noqa: BLE001  (an event the predicate cannot read is not the recorded finding)
                 ok = False
                 break
         if ok:
